@@ -12,6 +12,8 @@ QR = "symplyphysics/docs/quantity_notation_role.py"
 CONV = "symplyphysics/core/convert.py"
 IDG = "symplyphysics/core/symbols/id_generator.py"
 QTY = "symplyphysics/core/symbols/quantities.py"
+VFL = "symplyphysics/core/fields/vector_field.py"
+VEC = "symplyphysics/core/vectors/vectors.py"
 
 
 def register(m):
@@ -21,11 +23,25 @@ def register(m):
       ") -> CoordinateSystem:\n    if from_system.coord_system_type == coord_system_type:\n        return from_system\n    new_coord_system = from_system.coord_system.create_new(", "N1")
     m("C09", "b2-transform-local-rename-ok", CSYS,
       "    return CoordinateSystem(coord_system_type, new_coord_system)", "    result = CoordinateSystem(coord_system_type, new_coord_system)\n    return result", "SILENT")
-    # C11 T7
-    m("C11", "b2-subs-zip-truncates", SF,
-      "    for i, scalar in enumerate(base_scalars):\n        expression = expression.subs(scalar, point_.coordinate(i))\n    return expression",
-      "    return expression.subs(dict(zip(base_scalars, point_.coordinates)), simultaneous=True)", "T7")
-    m("C11", "b2-subs-raw-index", SF, "expression.subs(scalar, point_.coordinate(i))", "expression.subs(scalar, point_.coordinates[i])", "T7")
+    # C11 T5 / T7 / T8 (abstract evaluation of the substitution steps)
+    NEWSUBS = "    substitutions = {scalar: point_.coordinate(i) for i, scalar in enumerate(base_scalars)}\n    return expression.subs(substitutions, simultaneous=True)\n"
+    m("C11", "b2-subs-zip-truncates", SF, NEWSUBS, "    return expression.subs(dict(zip(base_scalars, point_.coordinates)), simultaneous=True)\n", "T7")
+    m("C11", "b2-subs-sequential-regression", SF, NEWSUBS,
+      "    for i, scalar in enumerate(base_scalars):\n        expression = expression.subs(scalar, point_.coordinate(i))\n    return expression\n", "T8",
+      note="the genuine defect repaired in 34ab32b")
+    m("C11", "b2-subs-dict-not-simultaneous", SF, "    return expression.subs(substitutions, simultaneous=True)\n", "    return expression.subs(substitutions)\n", "T8")
+    m("C11", "b2-subs-shifted-index", SF, "{scalar: point_.coordinate(i) for i, scalar in enumerate(base_scalars)}", "{scalar: point_.coordinate(i + 1) for i, scalar in enumerate(base_scalars)}", "T7")
+    m("C11", "b2-subs-loop-built-dict-ok", SF, NEWSUBS,
+      "    substitutions = {}\n    for i, scalar in enumerate(base_scalars):\n        substitutions[scalar] = point_.coordinate(i)\n    return expression.subs(substitutions, simultaneous=True)\n", "SILENT")
+    m("C11", "b2-vfield-sequential-regression", VFL, "        result.append(expression.subs(substitutions, simultaneous=True))",
+      "        for i, scalar in enumerate(base_scalars):\n            expression = expression.subs(scalar, point_.coordinate(i))\n        result.append(expression)", "T8")
+    m("C11", "b2-rebase-sequential-regression", VEC,
+      "            new_scalars = [\n                old_scalar.subs(substitutions, simultaneous=True) for old_scalar in new_scalars\n            ]",
+      "            for scalar, new_component in substitutions.items():\n                for j, old_scalar in enumerate(new_scalars):\n                    new_scalars[j] = old_scalar.subs(scalar, new_component)", "T5")
+    m("C11", "b2-rebase-wrong-direction", VEC, "                self.coordinate_system.transformation_to_system(\n                coordinate_system.coord_system_type))",
+      "                coordinate_system.transformation_to_system(\n                self.coordinate_system.coord_system_type))", "T5")
+    m("C11", "b2-field-rebase-two-scalars", SF, "            for i, scalar in enumerate(self.coordinate_system.coord_system.base_scalars()):\n                field_space_expr = field_space_expr.subs(scalar, new_scalars[i])",
+      "            for i, scalar in enumerate(self.coordinate_system.coord_system.base_scalars()[:2]):\n                field_space_expr = field_space_expr.subs(scalar, new_scalars[i])", "T5")
     # C13 J7
     m("C13", "b2-posify-magnitude", GE,
       "    return vector_magnitude(parametrized_curve_element(trajectory, parameter))",
@@ -50,6 +66,14 @@ def register(m):
       note="a guard that only touches the z axis (outside the domain) keeps the property; the exact comparison cannot read it, so the analysis refuses - it must not report")
     m("C15", "b2-helper-inlined-ok", SC, "        rho: sqrt(x**2 + y**2),\n        phi: atan2(y, x),", "        rho: sqrt(x**2 + y**2),\n        phi: _azimuth(x, y),", "SILENT",
       extra=[(SC, "ScalarMapping: TypeAlias = Mapping[SymSymbol, Expr]\n", "ScalarMapping: TypeAlias = Mapping[SymSymbol, Expr]\n\n\ndef _azimuth(x: Expr, y: Expr) -> Expr:\n    return atan2(y, x)\n", 1)])
+    CVT = "symplyphysics/core/experimental/coordinate_systems/convert.py"
+    m("C15", "b2-convert-point-sequential-regression", CVT, "        expr.subs(point.coordinates, simultaneous=True) for expr in conversion.values()", "        expr.subs(point.coordinates) for expr in conversion.values()", "X4",
+      note="the genuine defect repaired in f7b2249")
+    m("C15", "b2-convert-vector-sequential-regression", CVT, "    return new_vector.subs(new_point.coordinates, simultaneous=True)\n",
+      "    for new_scalar, new_coordinate in new_point.coordinates.items():\n        new_vector = new_vector.subs(new_scalar, new_coordinate)\n\n    return new_vector\n", "X4")
+    m("C15", "b2-convert-point-loop-form-ok", CVT, "    new_coordinates = [\n        expr.subs(point.coordinates, simultaneous=True) for expr in conversion.values()\n    ]",
+      "    new_coordinates = []\n    for expr in conversion.values():\n        new_coordinates.append(expr.subs(point.coordinates, simultaneous=True))", "SILENT")
+    m("C15", "b2-convert-vector-old-point-coordinates", CVT, "    return new_vector.subs(new_point.coordinates, simultaneous=True)\n", "    return new_vector.subs(old_point.coordinates, simultaneous=True)\n", "X4")
     # C16 Q4 / Q5
     m("C16", "b2-solve-check-disabled", SOLV, '    flags["dict"] = True\n', '    flags["dict"] = True\n    flags.setdefault("check", False)\n', "Q4")
     m("C16", "b2-first-vector-decides", VE, "            if is_vector_expr(arg):\n                n_vectors += 1\n                continue\n", "            if is_vector_expr(arg):\n                return True\n", ("Q5", ))
